@@ -228,3 +228,59 @@ def validate_events(trace_module, events, *, name, parallel=16, chunk=None, time
         st["wall_s"] = max(st["wall_s"], r.wall_s)
         fails.extend(r.printed)
     return fails, st
+
+
+STATEFUL_CFG = "INIT TraceInit\nNEXT TraceNext\nCHECK_DEADLOCK FALSE\nCONSTRAINT Furthest\nPOSTCONDITION TraceAccepted\n"
+
+
+def _validate_runs_chunk(trace_module, runs, name, timeout, xmx):
+    """validate a list of runs with a stateful trace spec; returns (rejected [(index, line)], states, transitions)"""
+    rejected = []
+    states = trans = 0
+    offset = 0
+    text = module_text(os.path.join("trace", trace_module + ".tla"))
+    while offset < len(runs):
+        d = mkscratch("trs")
+        try:
+            tf = os.path.join(d, "runs.ndjson")
+            with open(tf, "w") as f:
+                for r in runs[offset:]:
+                    f.write(json.dumps(r, sort_keys=True) + "\n")
+            res = run(text, STATEFUL_CFG, name=trace_module, workers=1, env={"TRACE_FILE": tf}, timeout=timeout, xmx=xmx)
+        finally:
+            shutil.rmtree(d, ignore_errors=True)
+        if res.error:
+            raise TLCError("stateful trace validation %s: %s" % (trace_module, res.error))
+        states += res.distinct
+        trans += res.generated
+        if res.violation is None:
+            break
+        stuck = [p for p in res.printed if isinstance(p, dict) and "stuck_run" in p]
+        if not stuck:
+            raise TLCError("stateful trace validation %s: rejected without a position (%s)\n%s" % (trace_module, res.violation, res.stdout[-1500:]))
+        k = stuck[-1]["stuck_run"]
+        rejected.append((offset + k - 1, stuck[-1]["stuck_line"]))
+        offset += k            # the runs before k were accepted; continue behind the rejected one
+    return rejected, states, trans
+
+
+def validate_runs(trace_module, runs, *, name, parallel=16, timeout=1800, xmx="2g"):
+    """Stateful trace validation of many independent runs (each consumed by the spec's own actions).
+    Returns (rejected, stats): rejected = list of (run index, line at which the spec could not follow)."""
+    if not runs:
+        return [], dict(states=0, transitions=0, events=0, runs=0, wall_s=0.0)
+    import time
+    t0 = time.time()
+    n = len(runs)
+    size = max(1, (n + parallel - 1) // parallel)
+    chunks = [(k, runs[k:k + size]) for k in range(0, n, size)]
+    with cf.ThreadPoolExecutor(max_workers=parallel) as ex:
+        futs = [(k, ex.submit(_validate_runs_chunk, trace_module, part, name, timeout, xmx)) for k, part in chunks]
+        out = [(k, f.result()) for k, f in futs]
+    rejected = []
+    st = dict(states=0, transitions=0, events=n, runs=len(chunks), wall_s=time.time() - t0)
+    for k, (rej, s, t) in out:
+        rejected += [(k + i, line) for i, line in rej]
+        st["states"] += s
+        st["transitions"] += t
+    return rejected, st
